@@ -22,6 +22,11 @@ ParseRangesInt/Decimal), `nil` (no length yet: parent is Uint64Range), a built-i
   str <A>                                -> hex of A.String()
   spec.step <parent: none | range list> <mode: int|dec|len> <fd> <hex> <outcome: err | range list>
                                          -> holds | violates:<why>    (the specification on an observed outcome)
+  spec.written <parent> <mode> <fd> <hex> <outcome>
+                                         -> holds | violates:<why> | na   (the same judgement as spec.step, but every literal is
+                                            read by its *written value* in exact arithmetic — `Written.lit`, which shares nothing
+                                            with the model's digit loops, 64-bit words or fraction-digit counter; na when a
+                                            boundary is not a plain `[sign] digits [. digits]` literal or min / max)
   spec.contains <A> <B>                  -> 1 | 0 | na   (A = [] or ⟦B⟧ ⊆ ⟦A⟧; na unless both are sorted-disjoint-coalesced)
   spec.sdc <A>                           -> 1 | 0
 -/
@@ -85,10 +90,9 @@ def uniform (fd : Nat) (r : YangRange) : Bool :=
 def showIvs (ivs : List Spec.Range.Iv) : String :=
   "|".intercalate (ivs.map fun r => s!"{r.1}..{r.2}")
 
-def specStep (parent : Option YangRange) (mode : String) (fd : Nat) (s : List UInt8) (out : Option YangRange) : String :=
-  let dec := mode == "dec"
-  let f := if dec then fd else 0
-  let w := Spec.Range.read (Spec.Range.lit dec f) s
+def specStepWith (lit : List UInt8 → Option Int) (parent : Option YangRange) (mode : String) (f : Nat) (s : List UInt8)
+    (out : Option YangRange) : String :=
+  let w := Spec.Range.read lit s
   let p := parent.map absRange
   match out with
   | some o =>
@@ -108,6 +112,87 @@ def specStep (parent : Option YangRange) (mode : String) (fd : Nat) (s : List UI
     -- RFC 7950 length-arg has no negative literals: rejecting a length text with a minus sign is permitted
     else if mode == "len" && s.contains 45 then "holds"
     else "violates:rejected although well-formed, ordered and within the parent's set"
+
+def specStep (parent : Option YangRange) (mode : String) (fd : Nat) (s : List UInt8) (out : Option YangRange) : String :=
+  let dec := mode == "dec"
+  let f := if dec then fd else 0
+  specStepWith (Spec.Range.lit dec f) parent mode f s out
+
+/-! ### literals by their written value
+
+An independent reading of plain literals `[sign] digits [. digits]` (`Spec.Number.readLit`), in exact
+arithmetic on unbounded naturals: no digit loop with overflow tests, no 64-bit word, no counter that could
+wrap, whatever the length of the literal.  Leading zeros are dropped before the digits are evaluated (they
+do not change the value), and more than 40 remaining digits are more than any 64-bit magnitude.
+
+* decimal64 at `f` fraction digits (`Spec.Number.parseDecimalSpec`): at most `f` digits may be written after
+  the point, the value scaled by `10^f` must be a signed 64-bit integer;
+* integers and lengths, in the base-0 syntax the Go code documents: no fraction part; an integer part with a
+  superfluous leading zero is octal (a digit 8 or 9 in it is invalid); the magnitude must be below 2^64.
+
+Literals with an empty integer or fraction part (`.5`, `5.`, `.`), base prefixes and underscores are not
+judged here (`judged`): `spec.step` is the judgement for those. -/
+namespace Written
+open Goyang.Spec.Number (Lit readLit digitsVal)
+
+def plainChars (t : List UInt8) : Bool :=
+  t.all fun c => c == 43 || c == 45 || c == 46 || (48 ≤ c.toNat && c.toNat ≤ 57)
+
+/-- value of a decimal digit string of any length (`none`: at least 10^40) -/
+def magnitude (ds : List Nat) : Option Nat :=
+  let ds := ds.dropWhile (· == 0)
+  if ds.length > 40 then none else some (digitsVal ds)
+
+def octal (ds : List Nat) : Option Nat :=
+  let ds := ds.dropWhile (· == 0)
+  if ds.any (· ≥ 8) then none
+  else if ds.length > 40 then none
+  else some (ds.foldl (fun a d => a * 8 + d) 0)
+
+def signed (neg : Bool) (m : Nat) : Int := if neg then -(m : Int) else (m : Int)
+
+def litInt (l : Lit) : Option Int :=
+  if l.fp.isSome then none
+  else
+    let m := if l.ip.length ≤ 1 || l.ip.head? != some 0 then magnitude l.ip else octal l.ip
+    match m with
+    | some m => if m < 2 ^ 64 then some (signed l.neg m) else none
+    | none => none
+
+def litDec (f : Nat) (l : Lit) : Option Int :=
+  if l.scale > f then none
+  else
+    match magnitude (l.ip ++ l.fp.getD []) with
+    | some m0 =>
+      let m := m0 * 10 ^ (f - l.scale)
+      if (if l.neg then m ≤ 2 ^ 63 else m < 2 ^ 63) then some (signed l.neg m) else none
+    | none => none
+
+/-- the literal reader handed to `Spec.Range.read` (the token arrives trimmed) -/
+def lit (dec : Bool) (f : Nat) (t : List UInt8) : Option Int :=
+  match readLit t with
+  | some l => if dec then litDec f l else litInt l
+  | none => none
+
+/-- is this boundary judged by its written value: a keyword, or made of sign, digit and point characters only
+and, when it has the shape of a literal, with both digit strings non-empty -/
+def judgedBound (t : List UInt8) : Bool :=
+  let t := Spec.Range.trim t
+  t == Spec.Range.kwMin || t == Spec.Range.kwMax ||
+    (plainChars t && match readLit t with
+      | some l => !l.ip.isEmpty && l.fp != some []
+      | none => true)
+
+def judged (s : List UInt8) : Bool :=
+  (Spec.Range.splitOn Spec.Range.sepBar s).all fun p =>
+    (Spec.Range.splitOn Spec.Range.sepDots p).all judgedBound
+
+end Written
+
+def specWritten (parent : Option YangRange) (mode : String) (fd : Nat) (s : List UInt8) (out : Option YangRange) : String :=
+  let dec := mode == "dec"
+  let f := if dec then fd else 0
+  if !Written.judged s then "na" else specStepWith (Written.lit dec f) parent mode f s out
 
 def handle : List String → String
   | ["base", name, fd] =>
@@ -149,6 +234,11 @@ def handle : List String → String
     match (if parent == "none" then some none else (decRange parent).map some), decNat fd, decBytes s,
           (if out == "err" then some none else (decRange out).map some) with
     | some parent, some fd, some s, some out => specStep parent mode fd s out
+    | _, _, _, _ => "bad-op"
+  | ["spec.written", parent, mode, fd, s, out] =>
+    match (if parent == "none" then some none else (decRange parent).map some), decNat fd, decBytes s,
+          (if out == "err" then some none else (decRange out).map some) with
+    | some parent, some fd, some s, some out => specWritten parent mode fd s out
     | _, _, _, _ => "bad-op"
   | ["spec.contains", a, b] =>
     match decRange a, decRange b with
